@@ -229,7 +229,38 @@ def check_c18(ctx):
     model_check(ctx, "mc/RequestWait_c18_loss.cfg", expect=("NoLostResponse",))
     scheds, _ = generate(ctx, "mc/GenRequestWait_c18.cfg", limit=10000 if quick else None)
     replay_and_validate(ctx, "C18", scheds, "gen")
+    stdio_carried(ctx, quick)
     n = 1500 if quick else 20000
     for k in (2, 3, 4):
         rs = random_scheds(ctx, n // 3, ncallers=k, max_arr=3 * k, cancel=False, progress=False)
         replay_and_validate(ctx, "C18", rs, "rand%d" % k)
+
+
+def stdio_carried(ctx, quick):
+    """the anchor stdio_client.py: several callers' responses behind bursts of unrelated
+    notifications in ONE read (more messages than the bounded read stream holds) must all reach the
+    read stream - validated against StdioFraming"""
+    from harness.drivers import stdio_drv as sd
+    from harness.props import framing
+    rng = random.Random(ctx.seed + 18)
+    cases = []
+    for _ in range(4 if quick else 40):
+        lines = []
+        for caller in range(rng.randrange(2, 5)):
+            lines += [("notif", rng.choice(["ascii", "b2"]), "LF")] * rng.randrange(60, 160)
+            lines.append(("resp", "ascii", "LF"))
+        data, _ = sd.build_stream(lines, None)
+        cases.append((lines, None, [len(data)]))
+    traces = sd.run_framing(cases)
+    consts = dict(framing.TREE)
+    consts.update({"Upto": ("<-", "TraceUpto"), "Streams": set(), "MaxCuts": 0})
+    res = validate.two_stage("StdioFramingTrace", [{k: v for k, v in t.items() if k != "kinds"} for t in traces], consts, work=os.path.join(ctx.work, "val_stdio"), jobs=4)
+    ctx.cov["states"] += res["states"]
+    ctx.cov["transitions"] += res["transitions"]
+    ctx.cov["traces_validated_against_impl"] += len(traces)
+    ctx.cov["evaluations"] += len(traces)
+    for i, t in enumerate(traces):
+        v = res["verdict"][i]
+        if v["clauses"]:
+            ctx.report("clause=NoLostResponse carrier=stdio %s" % ",".join(framing.signatures(t, v["clauses"])), "burst of %d lines in one read" % len(cases[i][0]),
+                       {"kind": "framing", "lines": cases[i][0], "tail": None, "sizes": cases[i][2], "clause": v["clauses"][0]})
